@@ -2,7 +2,8 @@
    Statements only. *)
 From Coq Require Import QArith.
 From Verif Require Import Base.Prelude Base.Decimal Base.Utf8 Base.JsonSpec Enc.JsonEnc Misc.Level
-     Proofs.DecimalP Proofs.JsonEncP Api.Exec Api.Spec Proofs.ExecP.
+     Proofs.DecimalP Proofs.JsonEncP Api.Exec Api.Spec Proofs.ExecP
+     Misc.GenTypes Gen.EventMethods Gen.ContextMethods Gen.ArrayMethods Gen.FieldsCases Proofs.GenTablesP.
 Open Scope N_scope.
 
 (* Parsing an emitted event yields exactly the members the declarative
@@ -108,6 +109,26 @@ Theorem C02_entry_points_agree : forall st p, prim_ok st p ->
   (forall l key, l_context (ctx_exec st (COp (OKey key p)) l) = AppendKey (l_context l) key ++ prim_txt st p).
 Proof. exact entry_points_agree. Qed.
 
+(* ... and in the CURRENT source (tables regenerated by go2coq on every run):
+   every regular method of Event, Context, Array and every simple case of the
+   Fields type switch calls the canonical primitive of its Go parameter type,
+   key first, with the same global settings; and the set of regular methods /
+   simple cases is the expected one (nothing silently became irregular) *)
+Theorem C02_event_table_canonical : forallb keyed_ok event_methods = true.
+Proof. exact event_table_canonical. Qed.
+Theorem C02_context_table_canonical : forallb keyed_ok context_methods = true.
+Proof. exact context_table_canonical. Qed.
+Theorem C02_array_table_canonical : forallb elem_ok array_methods = true.
+Proof. exact array_table_canonical. Qed.
+Theorem C02_fields_cases_canonical : forallb fcase_ok fields_cases = true.
+Proof. exact fields_cases_canonical. Qed.
+Theorem C02_tables_complete :
+  list_eqb_s (keyprim_names event_methods) event_regular = true /\
+  list_eqb_s (keyprim_names context_methods) context_regular = true /\
+  list_eqb_s (keyprim_names array_methods) array_regular = true /\
+  list_eqb_s simple_case_types fields_simple_types = true.
+Proof. exact (conj event_regular_complete (conj context_regular_complete (conj array_regular_complete fields_simple_complete))). Qed.
+
 Example C02_ex : forall st, prim_jv st (PInts [-9223372036854775808; 255]%Z) = JArr [JNum [45;57;50;50;51;51;55;50;48;51;54;56;53;52;55;55;53;56;48;56]; JNum [50;53;53]].
 Proof. intros. vm_compute. reflexivity. Qed.
 
@@ -128,3 +149,8 @@ Print Assumptions C02_nil_value.
 Print Assumptions C02_nil_error.
 Print Assumptions C02_slice_elements.
 Print Assumptions C02_entry_points_agree.
+Print Assumptions C02_event_table_canonical.
+Print Assumptions C02_context_table_canonical.
+Print Assumptions C02_array_table_canonical.
+Print Assumptions C02_fields_cases_canonical.
+Print Assumptions C02_tables_complete.
